@@ -109,13 +109,36 @@ def extract_table(prog, body, gargs=(), K=4096, by_ref=False, split_enum=False):
         pv = I.ensure(st, a.place, aty[2] if aty[0] == "ref" else None, "arg")
         if isinstance(pv, EnumV) and len(pv.variants) > 1:
             target = (a.place, pv)
-    elif isinstance(a, EnumV) and len(a.variants) > 1 and split_enum:
+    elif isinstance(a, EnumV) and len(a.variants) > 1:
         target = (None, a)
     if target is None:
         I.exec_body(body, gargs, args, st, None, "entry")
     else:
         place, ev = target
-        for vi, p in ev.variants.items():
+
+        def expand(vi, p, s_):
+            """the payload of variant vi with every nested enum field fixed to one variant: all combinations
+            (a helper that matches on a *copy* of the payload refines the copy, not the argument)"""
+            if p is None and ev.ty is not None:
+                fts = I.field_types(ev.ty, vi)
+                p = StructV([TopV(t) for t in (fts or [])])
+            if not isinstance(p, StructV):
+                return [p]
+            combos = [[]]
+            for f in p.fields:
+                fv = f
+                if isinstance(fv, TopV) and fv.ty is not None and fv.ty[0] == "adt" and len(fv.ty) > 3 and fv.ty[3] == "enum":
+                    fv = I.mat(s_, fv.ty, "arg.payload")
+                if isinstance(fv, EnumV) and len(fv.variants) > 1 and all(q is None or (isinstance(q, StructV) and not q.fields) for q in fv.variants.values()):
+                    alts = [EnumV(fv.path, {k: q}, fv.ty) for k, q in fv.variants.items()]
+                else:
+                    alts = [f]
+                combos = [c + [a_] for c in combos for a_ in alts]
+                if len(combos) > 512:
+                    return [p]
+            return [StructV(c) for c in combos]
+        for vi, p0 in ev.variants.items():
+          for p in expand(vi, p0, st):
             s2 = st.copy()
             one = EnumV(ev.path, {vi: p}, ev.ty)
             if place is not None:
